@@ -369,7 +369,8 @@ class Schema(dict, metaclass=LogicalMeta):
             if unprovided(addition):
                 # ignore addition
                 return
-            return super().__setitem__(alias, value)
+            # store the parsed addition (with a typed addition the converted value, as the constructor does)
+            return super().__setitem__(alias, addition)
 
         return self.__field_setter__(value, field=field)
 
